@@ -46,8 +46,10 @@ class LabelCodec(object):
         self.smin = smin          # str kind: this (smallest) abstract label is the empty string (falsy str label)
 
     def enc(self, h, kind):
-        if kind in "if":
+        if kind in "ifu":
             h = h + self.offset
+        if kind == "u":            # unsigned integer labels (the axis is stored as uint16)
+            return int(h)
         if kind == "i":
             if self.mixed:
                 assert h % 2 == 0
@@ -93,6 +95,8 @@ class LabelCodec(object):
 
     def enc_seq(self, hs, kind):
         vals = [self.enc(h, kind) for h in hs]
+        if kind == "u":
+            return np.array(vals, dtype=np.uint16)
         if kind == "i":
             return np.array(vals, dtype=int)
         if kind == "f":
